@@ -181,6 +181,7 @@ def run(R):
     R.rule("C04.percentile", "PERCENTILE picks rank floor(p * n) clamped to n - 1 with one and the same sample count n")
     _percentile_rank(R, "C04.percentile")
     _empty_state(R, "C04.empty")
+    _slot_creation(R, "C04.slot")
     _text_keys(R, "C04.argkey")
     _rect(R, "C04.rect")
     _transform(R)
@@ -558,8 +559,50 @@ def _isnull(R, rid):
         R.ok(rid, "GroupAggregator::is_null", "only Value::is_null of the running values", f.loc())
 
 
+def _slot_creation(R, rid):
+    """every slot of the group tables is created with its own aggregate's default: what the accessors (get_group / get_group_value /
+    get_group_aggregator and helpers new to the tree) put into a container is the result of the caller's default closure, or an empty
+    inner container - never a filler value (a NULL-padded slot makes `if let Value::Int(n) = slot { n += 1 }` a silent no-op, and which
+    slot gets padded depends on the order of the rows)"""
+    P = R.prog
+    R.rule(rid, "a group's value / aggregator slot is created only with the default its own aggregate supplies (the accessor inserts the "
+                "result of the default closure, or an empty inner container): no padding / filler values")
+    INS = re.compile(r"^(std::collections::hash::map::HashMap|alloc::collections::btree::map::BTreeMap)::insert$|^alloc::vec::Vec::(push|insert|resize|resize_with|extend_from_slice)$|"
+                     r"::entry::(Vacant)?Entry::(or_insert|or_insert_with|insert|insert_entry)$|::Entry::(or_insert|or_insert_with)$|^alloc::vec::from_elem$")
+    n = 0
+    for nm in ("get_group", "get_group_value", "get_group_aggregator"):
+        g0 = P.fn(ENGINE + nm)
+        if g0 is None:
+            continue
+        g = PR.view(P, g0)
+        for c in g.calls:
+            if not INS.search(short(c.name)) or not c.args:
+                continue
+            val = c.args[-1]
+            ty = val.get("ty") or ""
+            if val.get("k") == "const" or ty in ("usize",):
+                continue
+            n += 1
+            os_ = F.origins(g, val, depth=12) if val.get("k") in ("copy", "move") else []
+            from_default = any(o.kind == "call" and re.search(r"core::ops::function::Fn(Once|Mut)?::call(_once|_mut)?$", short(o.call.name)) for o in os_)
+            empty_inner = any(o.kind == "call" and re.search(r"::(new|default|with_capacity)$", short(o.call.name)) for o in os_) or \
+                bool(re.match(r"^\{closure", ty))
+            if from_default or empty_inner:
+                R.ok(rid, "%s|%s" % (nm, short(c.name).split("::")[-1]), "inserts %s" % ("the default closure's result" if from_default else "an empty inner container"),
+                     c.loc(), nontrivial=False)
+            else:
+                R.violation(rid, "%s|filler" % nm,
+                            "%s puts a value into the group table (%s) that is neither the result of the aggregate's default closure nor an empty "
+                            "inner container: a slot created with a filler (e.g. NULL padding for earlier aggregates) is not what its aggregate's "
+                            "update expects - COUNT's `if let Value::Int(n) = slot` then silently skips the row, and which groups are affected "
+                            "depends on the order of the lines" % (g0.path, short(c.name).split("::")[-1]), [c.loc()])
+    if n == 0:
+        raise AnchorMissing("%s: no insertion into the group tables found in get_group / get_group_value / get_group_aggregator" % rid)
+
+
 def run_c15(R):
     P = R.prog
+    _slot_creation(R, "C15.slot")
     R.rule("C15.fold", "MIN / MAX cover every value type through Value's order; SUM-like folds take both operands (checked addition), so no fold "
                        "keeps the first value it saw")
     R.rule("C15.lazy", "a lazily created entry depends on the first value only through its type (default_value) or is immediately folded with it")
@@ -635,7 +678,7 @@ def _update_state(R):
                         "depend on the order in which lines arrive")
     a = P.adts.get(AGG + "AggregateExecutionEngine")
     if not a:
-        from .core import EngineError
+        from .core import AnchorMissing, EngineError
         raise EngineError("AggregateExecutionEngine type not found")
     group_fields, other_fields = set(), set()
     for v in a["variants"]:
